@@ -115,7 +115,9 @@ fn run_bind(toks: &[&str], ctx: &mut Ctx) -> String {
         // by-name carrier: one entry, `n` bind markers with that name
         ("map", [n]) => {
             let mut m: HashMap<&str, i32> = HashMap::new();
-            m.insert("c", 7);
+            if *n > 0 {
+                m.insert("c", 7); // with no bind marker an entry would (rightly) be refused as NoColumnWithName
+            }
             let specs = int_specs(*n, Some("c"));
             judge_bind("from_serializable(HashMap<&str, i32>)", *n, SerializedValues::from_serializable(&RowSerializationContext::from_specs(&specs), &m), ctx)
         }
